@@ -813,11 +813,11 @@ func init() {
 		tt := in.prog.ImportedPackage("time").Type("Timer").Type()
 		cell := new(Value)
 		*cell = zero(tt)
-		*structFieldByName(cell, "C") = &Chan{id: in.sched.nextChanID(), env: "timer"}
+		*structFieldByName(cell, "C") = in.sched.newTimerChan(args[0])
 		return cell
 	})
 	reg("time.After", func(in *Interp, fr *frame, args []Value) Value {
-		return &Chan{id: in.sched.nextChanID(), env: "timer"}
+		return in.sched.newTimerChan(args[0])
 	})
 	reg("time.Tick", intrinsics["time.After"])
 	reg("(*time.Ticker).Stop", func(in *Interp, fr *frame, args []Value) Value { return nil })
